@@ -399,7 +399,7 @@ func (g *typeGen) structType(t *rapid.T, depth int) TypeDesc {
 		} else if g.cfg.Pool && g.cfg.Tags && rapid.IntRange(0, 9).Draw(t, "zeroer") == 0 {
 			// IsZeroer types (value and pointer receiver, by value and by
 			// pointer) are what omitempty consults: make them common
-			zt := TypeDesc{Kind: "pool", Pool: rapid.SampledFrom([]string{"ZeroVal", "ZeroPtr"}).Draw(t, "zeroert")}
+			zt := TypeDesc{Kind: "pool", Pool: rapid.SampledFrom([]string{"ZeroVal", "ZeroPtr", "ZInt", "ZF64", "ZFlag", "ZU8"}).Draw(t, "zeroert")}
 			if rapid.IntRange(0, 3).Draw(t, "zeroerp") == 0 {
 				zt = TypeDesc{Kind: "ptr", Elem: &TypeDesc{Kind: "pool", Pool: zt.Pool}}
 			}
@@ -408,9 +408,34 @@ func (g *typeGen) structType(t *rapid.T, depth int) TypeDesc {
 				f.Tag = `struct:"` + rapid.SampledFrom([]string{",omitempty", "z,omitempty"}).Draw(t, "zeroertagv") + `"`
 			}
 		}
+		if strings.HasPrefix(f.Tag, `struct:"`) && !strings.HasPrefix(f.Tag, `struct:"-`) && rapid.IntRange(0, 7).Draw(t, "tagblank") == 0 {
+			// blanks around the name and the options: `struct:"name , inline"`
+			// means the same as `struct:"name,inline"`
+			f.Tag = blankTag(f.Tag, rapid.IntRange(1, 7).Draw(t, "tagblankw"))
+		}
 		td.Fields = append(td.Fields, f)
 	}
 	return td
+}
+
+// blankTag puts a blank behind (w&1), in front of (w&2) every comma and at both
+// ends (w&4) of the tag value.
+func blankTag(tag string, w int) string {
+	val := strings.TrimSuffix(strings.TrimPrefix(tag, `struct:"`), `"`)
+	parts := strings.Split(val, ",")
+	for i := range parts {
+		if i > 0 && w&1 != 0 {
+			parts[i] = " " + parts[i]
+		}
+		if i < len(parts)-1 && w&2 != 0 {
+			parts[i] += " "
+		}
+	}
+	val = strings.Join(parts, ",")
+	if w&4 != 0 {
+		val = " " + val + " "
+	}
+	return `struct:"` + val + `"`
 }
 
 func (g *typeGen) nestedInline(t *rapid.T, depth, idx int) (TypeDesc, string) {
